@@ -12,6 +12,7 @@ pub struct Fixture {
     pub is_schema: bool,   // by name: contains "schema"
     pub ops: Vec<String>,  // operation names found in a query file
     pub big: bool,         // > 50 kB: used sparingly
+    pub deepbad: bool,     // a derived query with an unknown field at its deepest nesting level
 }
 
 #[derive(Clone, Debug)]
@@ -161,6 +162,7 @@ pub fn build(repo: &Path, root: &Path, with_big: bool) -> Tree {
                 is_schema,
                 ops,
                 big: len > 50_000,
+                deepbad: false,
             });
         }
     }
@@ -189,16 +191,44 @@ pub fn build(repo: &Path, root: &Path, with_big: bool) -> Tree {
         fs::write(d.join("schema.graphql"), schema).unwrap();
         fs::write(d.join("query.graphql"), query).unwrap();
         dirs.push(name.to_string());
-        fixtures.push(Fixture { dir: name.to_string(), file: "schema.graphql".into(), is_schema: true, ops: vec![], big: false });
-        fixtures.push(Fixture { dir: name.to_string(), file: "query.graphql".into(), is_schema: false, ops: operation_names(query), big: false });
+        fixtures.push(Fixture { dir: name.to_string(), file: "schema.graphql".into(), is_schema: true, ops: vec![], big: false, deepbad: false });
+        fixtures.push(Fixture { dir: name.to_string(), file: "query.graphql".into(), is_schema: false, ops: operation_names(query), big: false, deepbad: false });
         // a sibling of exactly the same byte length (and, written in the same instant, practically
         // the same timestamps) but different content: anything that identifies files by metadata
         // confuses the two
         let sibling = if name == "syn_rec" { query.replace("query Op(", "query Oq(") } else { query.replace("query E {", "query F {") };
         assert_eq!(sibling.len(), query.len());
         fs::write(d.join("query_b.graphql"), &sibling).unwrap();
-        fixtures.push(Fixture { dir: name.to_string(), file: "query_b.graphql".into(), is_schema: false, ops: operation_names(&sibling), big: false });
+        fixtures.push(Fixture { dir: name.to_string(), file: "query_b.graphql".into(), is_schema: false, ops: operation_names(&sibling), big: false, deepbad: false });
     }
+    // for every query a variant that fails validation *deep inside* its selection (an unknown field
+    // at the deepest nesting level): a failure that unwinds through all enclosing levels
+    let mut variants = vec![];
+    for f in fixtures.iter().filter(|f| !f.is_schema && !f.big) {
+        let text = fs::read_to_string(fx.join(&f.dir).join(&f.file)).unwrap_or_default();
+        let (mut depth, mut best, mut best_at) = (0usize, 0usize, None);
+        for (i, ch) in text.char_indices() {
+            match ch {
+                '{' => {
+                    depth += 1;
+                    if depth > best {
+                        best = depth;
+                        best_at = Some(i + 1);
+                    }
+                }
+                '}' => depth = depth.saturating_sub(1),
+                _ => {}
+            }
+        }
+        if let (Some(at), true) = (best_at, best >= 2) {
+            let mut t = text.clone();
+            t.insert_str(at, " noSuchFieldZz ");
+            let name = format!("{}_deepbad.graphql", f.file.trim_end_matches(".graphql"));
+            fs::write(fx.join(&f.dir).join(&name), t).unwrap();
+            variants.push(Fixture { dir: f.dir.clone(), file: name, is_schema: false, ops: f.ops.clone(), big: false, deepbad: true });
+        }
+    }
+    fixtures.extend(variants);
     // the same file under different paths
     for d in &dirs {
         fs::create_dir_all(root.join("sym").join(d)).unwrap();
